@@ -340,8 +340,12 @@ def c07(tier):
     real = mk("realdiff", 40 if q else 1500, s + 11, "default")
     for c in real:
         c["sim"] = False
-    res = run_cases(cases + mid) + (run_cases(real) if real_kernel_lane() else [])
+    # every system call of a corpus of scripted sessions fails once (read, writev, accept, fcntl, setsockopt, getsockname, epoll_ctl,
+    # timerfd_create, timerfd_settime; transient and permanent errnos): everything is still reclaimed, descriptor use stays hygienic
+    sres, scases = sysfail_cases(tier, s)
+    res = sres + run_cases(cases + mid + scases) + (run_cases(real) if real_kernel_lane() else [])
     return report("C07", "exploration", res,
+                  "single system call failures enumerated over a corpus of 8 scripted sessions (the n-th read / writev / accept / fcntl / setsockopt / getsockname / epoll_ctl / timerfd_create / timerfd_settime fails once, for every n; quick: one errno per call, thorough: every errno the call may report), sessions with a credential file in which the update of that file fails (write / fsync / rename), "
                   "random bus histories, hostile sessions incl. half-open HTTP upgrades, injected failures of timerfd_create / timerfd_settime / epoll_ctl / fcntl / "
                   "setsockopt / getsockname, peers that stop reading or whose sockets fail while requests are routed to them, a 256 KiB heap cap (64 KiB above the idle daemon) reached by ordinary adds; afterwards either all connections are closed and heap / peers / "
                   "descriptors / timers / epoll registrations are compared with the idle baseline, or SIGTERM is delivered at a seeded step (exit status 0, "
@@ -396,6 +400,25 @@ def passwd_allocfail_cases(tier, s):
         for i in range(n):
             for cnt in ((1,) if q else (1, 2, 4)):
                 cases.append(dict(kind="allocfail-passwd", seed=r.case["seed"], config="default", params=dict(r.case["params"], nth=i, count=cnt)))
+    return cres, cases
+
+
+def sysfail_cases(tier, s, scripts=None, every=1):
+    """one scripted session with the n-th call of one system call failing once, for every call kind, every n and (thorough) every errno
+    that call may report; quick: one errno per (call, n), chosen by the seed"""
+    from .scen_alloc import SCRIPTS, SYSCALLS
+    q = tier == "quick"
+    names = sorted(scripts or SCRIPTS)
+    cres = run_cases([dict(kind="sysfail", seed=1, config="default", params=dict(script=n)) for n in names])
+    cases = []
+    for r in cres:
+        for call, n in sorted((r.call_counts or {}).items()):
+            for i in range(1, n + 1):
+                if (i + s) % every:
+                    continue
+                ens = SYSCALLS[call]
+                for en in ([ens[(i + s) % len(ens)]] if q else ens):
+                    cases.append(dict(kind="sysfail", seed=i, config="default", params=dict(script=r.case["params"]["script"], call=call, nth=i, errno=en)))
     return cres, cases
 
 
@@ -646,7 +669,9 @@ def c11(tier):
              + mk("bystander", 20 if q else 500, s + 5, "odd")
              # "keeps accepting and serving connections": bursts of pending connections (some already gone again) on one listener
              + mk("acceptburst", 30 if q else 800, s + 6, "default") + mk("acceptburst", 10 if q else 300, s + 7, "one") + mk("acceptburst", 10 if q else 300, s + 8, "wide"))
-    res = run_cases(cases)
+    # every system call of the scripted corpus fails once: only connections involved in the failing call may be lost
+    sres, scases = sysfail_cases(tier, s + 3, every=1 if not q else 2)
+    res = sres + run_cases(cases + scases)
     return report("C11", "fault_enumeration", res,
                   "random bus histories in which a growing subset of peers is made faulty at seeded moments: stops reading (write budget 0/1/5/70 bytes, 1-byte "
                   "write cap), hard write errors (EPIPE, ECONNRESET, ENOBUFS), RST without waiting, garbage input; accept() failing with ECONNABORTED / EMFILE / "
@@ -655,7 +680,7 @@ def c11(tier):
                   "their effect is read back through a healthy connection and every healthy replica must agree with it); the 256-byte write buffer "
                   "configuration makes buffers overflow within a few notifications; 'bystander' histories: a healthy subscriber with parked output reads "
                   "again directly after another connection ended inside its own readiness event (garbage, over-long length prefix, end of stream, RST) or "
-                  "another peer's routed request ran into its deadline, nothing else becoming readable in between - its byte stream must then be complete; 'acceptburst' histories: 9..40 connections become pending on one listener between two wake-ups, some reset or closed again before the daemon looks, all others must be accepted and served; "
+                  "another peer's routed request ran into its deadline, nothing else becoming readable in between - its byte stream must then be complete; 'acceptburst' histories: 9..40 connections become pending on one listener between two wake-ups, some reset or closed again before the daemon looks, all others must be accepted and served; single system call failures enumerated over a corpus of 8 scripted sessions (the n-th read / writev / accept / fcntl / setsockopt / getsockname / epoll_ctl / timerfd_create / timerfd_settime fails once, for every n): only connections involved in the failing call may be dropped, a fresh connection is served afterwards; "
                   "distinct = (fault kind, transport, role) signatures",
                   t0, tier, SIM_ASSUME, min_events={"faults": 1000, "accept_faults": 100, "replica_checks_nonempty": 10000, "frames_refused": 100,
                                                     "bystander_rounds": 500})
